@@ -188,6 +188,14 @@ def run(F, rep):
                 rep.ob("C17-R4", "per-sample writer receives the loop item", a is not None and contains(a, lambda x: isinstance(x, tuple) and x[0] == "call" and re.search(r"Iterator>?::next$", x[1])),
                        detail=fmt(a), site=site_of(gs, t), key="C17-R4 | getset | loop item #%d" % nl)
         rep.floor("C17-R4", nl, 2, "extraction loops in getset (file branch, stdout branch)")
+        # in-place reordering of a list of names anywhere in the command (sort/dedup/reverse/retain through &mut)
+        for bi, t in gs.calls():
+            if t.get("indirect") or not re.search(r"::(sort\w*|dedup\w*|reverse|retain\w*|swap\w*|rotate_\w+|truncate|drain|remove|pop)$", t["callee"]):
+                continue
+            tys = " ".join(a.get("pl", {}).get("ty", "") for a in t["args"][:1])
+            if "alloc::string::String" in tys:
+                rep.ob("C17-R4", "no in-place reordering/removal on a list of sample names in getset", False,
+                       detail="%s on %s" % (t["callee"], tys), site=site_of(gs, t), key="C17-R4 | getset | %s on names" % t["callee"].rsplit("::", 1)[-1])
         rep.ob("C17-R5", "stdout and -o branches call the same per-sample writer", len(writers) >= 2 and all(w == writers[0] for w in writers),
                detail="writers per loop: %s" % writers, key="C17-R5 | getset | same writer")
         # the prefix filter keeps archive order
